@@ -126,6 +126,11 @@ class Ctx:
 
     def finish(self):
         self._flush_digest()
+        if self.lib is not None:
+            try:
+                self.extra["functions_called"] = sorted(self.lib._fn)
+            except Exception:
+                pass
         self._dgf.close()
         hp = self._out.name + ".hashes"
         with open(hp, "w") as f:
@@ -351,14 +356,48 @@ class Run:
         env = worker_env(job["cfg"])
         for k, v in (job.get("env") or {}).items():
             env[k] = (v + ":" + env[k]) if (k == "LD_PRELOAD" and env.get(k)) else v
-        proc = subprocess.Popen([sys.executable, "-m", "vlib.core", "--worker", json.dumps(jj), marker, outp],
-                                cwd=VERIF, env=env, stdout=errf, stderr=errf)
+        cmd = [sys.executable, "-m", "vlib.core", "--worker", json.dumps(jj), marker, outp]
+        if job.get("memcheck"):
+            # the whole worker under valgrind memcheck; only errors with a libbee2 frame are counted afterwards
+            env["PYTHONMALLOC"] = "malloc"
+            cmd = ["valgrind", "--tool=memcheck", "--error-limit=no", "-q", "--num-callers=14", "--leak-check=no",
+                   "--xml=yes", "--xml-file=" + base + ".vg.xml"] + cmd
+        proc = subprocess.Popen(cmd, cwd=VERIF, env=env, stdout=errf, stderr=errf)
         errf.close()
-        return {"proc": proc, "job": job, "marker": marker, "out": outp, "err": errp, "t0": time.time()}
+        return {"proc": proc, "job": job, "marker": marker, "out": outp, "err": errp, "t0": time.time(),
+                "vgxml": base + ".vg.xml" if job.get("memcheck") else None}
+
+    def _memcheck_errors(self, r):
+        job = r["job"]
+        try:
+            x = open(r["vgxml"], errors="replace").read()
+        except OSError:
+            return
+        n = 0
+        for e in re.findall(r"<error>(.*?)</error>", x, re.S):
+            kind = re.search(r"<kind>(.*?)</kind>", e).group(1)
+            first = e.split("</stack>")[0]
+            frames = re.findall(r"<frame>(.*?)</frame>", first, re.S)
+            bee = []
+            for f in frames:
+                obj = re.search(r"<obj>(.*?)</obj>", f)
+                fn = re.search(r"<fn>(.*?)</fn>", f)
+                if obj and "libbee2" in obj.group(1):
+                    bee.append(fn.group(1) if fn else "?")
+            if not bee:
+                continue
+            n += 1
+            self.add_violation("memcheck:%s:%s:%s" % (kind, bee[0], bee[-1]),
+                               "valgrind memcheck: %s inside bee2 (%s <- %s)" % (kind, bee[0], bee[-1]),
+                               {"job": _jobkey(job), "idx": -1, "case": None, "detail": {"stack": bee[:8]}})
+        self.extra["memcheck_errors_with_bee2_frame"] = self.extra.get("memcheck_errors_with_bee2_frame", 0) + n
+        self.extra["memcheck_jobs"] = self.extra.get("memcheck_jobs", 0) + 1
 
     def _reap(self, r, rc, max_restarts=25):
         job = r["job"]
         done = False
+        if r.get("vgxml"):
+            self._memcheck_errors(r)
         for line in open(r["out"]):
             try:
                 o = json.loads(line)
@@ -393,7 +432,7 @@ class Run:
                     elif isinstance(v, list):
                         self.extra.setdefault(k, [])
                         for x in v:
-                            if x not in self.extra[k] and len(self.extra[k]) < 2000:
+                            if x not in self.extra[k] and len(self.extra[k]) < 5000:
                                 self.extra[k].append(x)
                     elif isinstance(v, dict):
                         d = self.extra.setdefault(k, {})
@@ -570,7 +609,7 @@ class Run:
 
 
 def _jobkey(job):
-    return {k: job[k] for k in ("cfg", "unit", "params", "seed", "tier", "fill", "nolib", "env") if k in job}
+    return {k: job[k] for k in ("cfg", "unit", "params", "seed", "tier", "fill", "nolib", "env", "memcheck") if k in job}
 
 
 def replay(prop, path):
